@@ -18,6 +18,7 @@ func (x *counters) Add(addr oid.Address, size uint64) {
 	x.mu.Lock()
 	defer x.mu.Unlock()
 
+	x.size -= x.objMap[addr] // zero unless addr is already accounted
 	x.size += size
 	x.objMap[addr] = size
 }
